@@ -258,6 +258,33 @@ def poleDesign (c : α) : List α × List α :=
 def envelopePoleCall (s : Option EnvStrategy) (cutoff : Option α) (xs : List α) : List α :=
   envelopeCall poleDesign TrigField.sqrt TrigField.pi s cutoff xs
 
+/-! #### a time-varying cutoff: `envelope.*(sig, cutoff=<stream or list>)`
+
+    `lowpass(cutoff)` on a Stream computes `x`, `R` sample by sample and returns the filter
+    `(1 − R[n]) / (1 − R[n] z⁻¹)` with Stream coefficients (no coefficient is ever tested for zero);
+    `LinearFilter.__call__` reads one value of every coefficient per input sample and stops with the
+    shorter of the two. -/
+
+/-- `R` of `lowpass.pole` for one cutoff value (the expression inside `ALV.C13.lowpassPole`) -/
+def polePoint (c : α) : α :=
+  let x := C13.c2 - TrigField.cos c
+  x - TrigField.sqrt (C13.sq x - C13.c1)
+
+/-- the generated loop with per-sample coefficients `b0 = 1 − R[n]`, `a1 = −R[n]`; `m` = previous output -/
+def envVarLoop : α → List α → List α → List α
+  | m, c :: cs, u :: us =>
+    let R := polePoint c
+    let y := (C13.c1 - R) * u - (-R) * m
+    y :: envVarLoop y cs us
+  | _, _, _ => []
+
+/-- `envelope[strategy](sig, cutoff=cs)` for a cutoff given sample by sample -/
+def envelopeVarCall (s : Option EnvStrategy) (cs xs : List α) : List α :=
+  match s.getD EnvStrategy.dflt with
+  | .rms => (envVarLoop 0 cs (xs.map fun x => x * x)).map TrigField.sqrt
+  | .abs => envVarLoop 0 cs (xs.map absG)
+  | .squared => envVarLoop 0 cs (xs.map fun x => x * x)
+
 end envelopePole
 
 /-! ### the instances the driver runs -/
@@ -289,6 +316,7 @@ def envelopeSquared (b a xs : List Float) := C20.envelopeSquared b a xs
 /-- the envelope call at `Float`: design `ALV.C13.lowpassPole`, `Float.sqrt`, `math.pi` -/
 def envelopePoleCall (s : Option EnvStrategy) (cutoff : Option Float) (xs : List Float) :=
   C20.envelopePoleCall s cutoff xs
+def envelopeVarCall (s : Option EnvStrategy) (cs xs : List Float) := C20.envelopeVarCall s cs xs
 
 end F
 
